@@ -24,7 +24,12 @@ GRIDS = {
     "Ak": (2, ("0", M.TAP, M.HOLD, "2[5]", M.TAIL, M.MINE), 2, 3),
     "K1": (1, ("0", "2[5]", "4[1]", M.TAIL, M.TAP), 4, 5),
     "R3": (3, ("0", M.ROLL, "4[0]", M.TAIL), 2, 2),
+    # different beats inside one 1/48 tick
+    "T": (2, ("0", M.TAP, M.HOLD, M.TAIL), 3, 3),
+    # every other note type on a held column (each must interrupt the hold)
+    "X1": (1, ("0", M.HOLD, M.TAIL, M.KEYSOUND, M.ATTACK, M.FAKE, M.LIFT), 3, 4),
 }
+CLOSE_BEATS = [Fraction(1), Fraction(97, 96), Fraction(49, 48), Fraction(197, 192)]
 
 
 def fmt_stream(stream):
@@ -186,7 +191,7 @@ def explore_shard(acc, shard):
             if a != "0" and a[0] not in types:
                 types.append(a[0])
         rows = N.grid_rows(cols, alphabet)
-        beats = BEATS + [Fraction(12 + i) for i in range(4)]
+        beats = (CLOSE_BEATS if grid == "T" else BEATS) + [Fraction(12 + i) for i in range(4)]
         layer = f"R grid {grid}"
 
         def rec(prefix_rows):
